@@ -304,6 +304,12 @@ func (f *Frame) builtin(st *state, b *ssa.Builtin, c *ssa.CallCommon, ins ssa.In
 	case "delete":
 		u.mapDelete(st, f.val(c.Args[0]), c.Args[0].Type(), f.val(c.Args[1]))
 		return nil
+	case "close":
+		ch := f.val(c.Args[0])
+		cl := u.arr(st.mem, chanClosedSite, SBool)
+		u.oblige(f, st, "panic", f.ordLabel(ins, "call")+" close of nil or closed channel", ins.Pos(), and(not(eq(ch.S[0], "0")), not(sel(cl, ch.S[0]))))
+		u.setArr(st.mem, chanClosedSite, SBool, store(cl, ch.S[0], "true"))
+		return nil
 	case "clear":
 		switch c.Args[0].Type().Underlying().(type) {
 		case *types.Map:
